@@ -173,7 +173,7 @@ class CompositeTransform(SpatialTransform):
         else:
             y = grid_transform_points(x, grid, axes, self.grid(), self.axes())
             y = self.forward(y)
-            y = grid_transform_points(y, self.grid(), self.axes(), grid, axes)
+            y = grid_transform_points(y, self.grid(), self.axes(), grid, axes, decimals=None)
         u = y - x
         u = move_dim(u, -1, 1)
         return u
